@@ -188,14 +188,31 @@ def syntactic_audit(roots: list) -> list:
     return hits
 
 
-def theorems_of(pid: str) -> list:
-    out = []
+def qualified_theorems(pid: str) -> dict:
+    """short name -> fully qualified name (the innermost `namespace` open at the theorem) of every property theorem"""
+    out: dict = {}
     for name in (f"{pid}.lean", f"{pid}Tie.lean"):
         path = os.path.join(LEAN_ROOT, "OFCore", "Props", name)
-        if os.path.exists(path):
-            src = strip_comments(open(path).read())
-            out += re.findall(r"^theorem\s+(" + pid + r"_[A-Za-z0-9_']+)", src, flags=re.M)
+        if not os.path.exists(path):
+            continue
+        ns: list = []
+        for line in strip_comments(open(path).read()).splitlines():
+            m = re.match(r"^namespace\s+(\S+)", line)
+            if m:
+                ns.append(m.group(1))
+                continue
+            m = re.match(r"^end\s+(\S+)", line)
+            if m and ns and ns[-1].split(".")[-1] == m.group(1).split(".")[-1]:
+                ns.pop()
+                continue
+            m = re.match(r"^theorem\s+(" + pid + r"_[A-Za-z0-9_']+)", line)
+            if m:
+                out[m.group(1)] = ".".join([*ns, m.group(1)])
     return out
+
+
+def theorems_of(pid: str) -> list:
+    return list(qualified_theorems(pid))
 
 
 def axiom_audit(pid: str) -> tuple[dict, str]:
@@ -209,8 +226,9 @@ def axiom_audit(pid: str) -> tuple[dict, str]:
     path = os.path.join(d, f"Audit_{pid}.lean")
     with open(path, "w") as f:
         f.write(f"import OFCore.Props.{pid}\n" + (f"import {tie_module(pid)}\n" if tie_module(pid) else "") + "open OFCore\n")
+        full = qualified_theorems(pid)
         for t in thms:
-            f.write(f"#print axioms {t}\n")
+            f.write(f"#print axioms {full.get(t, t)}\n")
     p = subprocess.run(["lake", "env", "lean", path], cwd=LEAN_ROOT, capture_output=True, text=True, timeout=900)
     out = p.stdout + p.stderr
     # "'X' depends on axioms: [a, b]"   or  "'X' does not depend on any axioms"
